@@ -149,11 +149,81 @@ fn seed_pairs(rng: &mut Rng, out: &mut Out, n: usize) {
     }
 }
 
+fn returns<T>(f: impl FnOnce() -> T) -> String {
+    match std::panic::catch_unwind(std::panic::AssertUnwindSafe(f)) { Ok(_) => "ok".into(), Err(_) => "panic".into() }
+}
+
+/// which argument values do the constructors accept?  The theorems of C24 / C07 hold on the model's
+/// `Valid` contexts; `newOk` (= `Valid`, proved) must coincide with what can really be constructed,
+/// so every boundary of every assertion is probed from both sides.
+fn ctor_probes(rng: &mut Rng, out: &mut Out, n: usize) {
+    let lengths: Vec<usize> = vec![0, 1, 4, 7, 8, 9, 12, 16, 1 << 31, (1 << 31) + 1, 1 << 32, 1 << 63, (1 << 63) + 1, usize::MAX];
+    for &main in &[0usize, 1, 2, 254, 255, 256] {
+        for &aux in &[0usize, 1, 253, 254, 255, 256] {
+            for &rands in &[0usize, 1, 255, 256, 257, 300, 511, 65536] {
+                for &length in &lengths {
+                    out.count("ctor:ti");
+                    out.case(&format!("obj ti_new {main} {aux} {rands} {length} 0"), "-",
+                        || returns(|| TraceInfo::new_multi_segment(main, aux, rands, length, vec![])));
+                }
+            }
+        }
+    }
+    for &ml in &[1usize, 65534, 65535, 65536, 65537] {
+        for &(main, aux, rands) in &[(1usize, 0usize, 0usize), (20, 9, 12), (1, 254, 255), (1, 1, 256)] {
+            out.case(&format!("obj ti_new {main} {aux} {rands} 64 {ml}"), "-",
+                || returns(|| TraceInfo::new_multi_segment(main, aux, rands, 64, vec![0u8; ml])));
+        }
+    }
+    // ProofOptions: one argument at a time around its bounds, from a valid base; then random mixes
+    let base = Po { q: 27, b: 8, g: 16, e: 1, f: 4, rd: 7, bc: 0, bd: 1, np: 1, hr: 1 };
+    let axes: Vec<(usize, Vec<usize>)> = vec![
+        (0, vec![0, 1, 2, 254, 255, 256, 257, 1000]),
+        (1, vec![0, 1, 2, 3, 4, 6, 64, 96, 128, 129, 256]),
+        (2, vec![0, 1, 31, 32, 33, 64, 255, 256]),
+        (4, vec![0, 1, 2, 3, 4, 8, 12, 16, 17, 32]),
+        (5, vec![0, 1, 2, 3, 4, 7, 8, 15, 127, 128, 255, 256, 511]),
+        (8, vec![0, 1, 2, 15, 16, 17, 255, 256]),
+        (9, vec![0, 1, 2, 254, 255, 256, 257, 512]),
+    ];
+    let set = |p: &mut Po, axis: usize, v: usize| match axis {
+        0 => p.q = v, 1 => p.b = v, 2 => p.g = v as u32, 4 => p.f = v, 5 => p.rd = v, 8 => p.np = v, _ => p.hr = v,
+    };
+    let mut pos: Vec<Po> = Vec::new();
+    for (axis, vals) in &axes { for &v in vals { let mut p = base.clone(); set(&mut p, *axis, v); pos.push(p); } }
+    for _ in 0..n {
+        let mut p = gen_po(rng);
+        for _ in 0..rng.range(1, 2) {
+            let (axis, vals) = rng.pick(&axes).clone();
+            set(&mut p, axis, *rng.pick(&vals));
+        }
+        pos.push(p);
+    }
+    for p in pos {
+        out.count("ctor:po");
+        out.case(&format!("obj po_new {}", p.show()), "-", || returns(|| p.build()));
+    }
+    // Context::new: trace length, LDE domain size and constraint count limits
+    for &len in &[8usize, 1 << 24, 1 << 25, 1 << 30, 1 << 31, 1 << 32, 1 << 33] {
+        for &blowup in &[2usize, 4, 64, 128] {
+            for &nc in &[0usize, 1, u32::MAX as usize - 1, u32::MAX as usize, u32::MAX as usize + 1] {
+                out.count("ctor:ctx");
+                out.case(&format!("obj ctx_new {len} {blowup} {nc}"), "-", || returns(|| {
+                    let po = ProofOptions::new(1, blowup, 0, FieldExtension::None, 2, 0, BatchingMethod::Linear, BatchingMethod::Linear);
+                    Context::new::<f64::BaseElement>(TraceInfo::new(1, len), po, nc)
+                }));
+            }
+        }
+    }
+}
+
 pub fn run_seed(rng: &mut Rng, out: &mut Out, n: usize) {
     seed_pairs(rng, out, n);
+    ctor_probes(rng, out, core::cmp::max(20, n / 4));
 }
 
 pub fn run(rng: &mut Rng, out: &mut Out, n: usize) {
+    ctor_probes(rng, out, core::cmp::max(20, n / 4));
     for it in 0..n {
         // ---------------- TraceInfo ----------------
         let ti = gen_ti(rng, if it % 3 == 0 { 62 } else { 31 });
